@@ -10,6 +10,7 @@
    TLA+ types, so every field is present in every value):
 
      k      kind: "null" "bool" "int" "dec" "str" "date" "pat" "list" "set" "map"
+            and "ref": a value with identity only (function, stream), n = <<id, 1>>
      n      <<num, den>>   numeric payload (bool: <<0|1, 1>>)
               den >= 1 : the exact rational num/den  (ints: den = 1;
                          decimals: den a power of two <= 1024, so the decimal
@@ -42,8 +43,9 @@ VPat(s)          == Mk("pat", NoN, s, << >>, << >>)
 VList(items)    == Mk("list", NoN, << >>, items, << >>)
 VSet(items)     == Mk("set", NoN, << >>, items, << >>)
 VMap(keys, vs)  == Mk("map", NoN, << >>, keys, vs)
+VRef(id)        == Mk("ref", <<id, 1>>, << >>, << >>, << >>)
 
-Kinds == {"null", "bool", "int", "dec", "str", "date", "pat", "list", "set", "map"}
+Kinds == {"null", "bool", "int", "dec", "str", "date", "pat", "list", "set", "map", "ref"}
 
 MinOf(S) == CHOOSE x \in S : \A y \in S : x <= y
 MaxOf(S) == CHOOSE x \in S : \A y \in S : x >= y
@@ -57,7 +59,7 @@ IsBig(v) == v.n[2] = 0
 Rank(v) == CASE v.k = "null" -> 0 [] v.k = "bool" -> 1 [] v.k = "int" -> 2
              [] v.k = "dec" -> 2 [] v.k = "str" -> 3 [] v.k = "date" -> 4
              [] v.k = "pat" -> 5 [] v.k = "list" -> 6 [] v.k = "set" -> 7
-             [] v.k = "map" -> 8
+             [] v.k = "map" -> 8 [] v.k = "ref" -> 9
 SameKind(a, b) == Rank(a) = Rank(b)
 
 -----------------------------------------------------------------------------
@@ -112,6 +114,7 @@ Equal(a, b) ==
   ELSE IF a.k # b.k THEN FALSE
   ELSE CASE a.k = "null" -> TRUE
          [] a.k = "bool" -> a.n = b.n
+         [] a.k = "ref" -> a.n = b.n                     \* identity
          [] a.k \in {"str", "date", "pat"} -> a.s = b.s
          [] a.k = "list" ->
               /\ Len(a.items) = Len(b.items)
@@ -149,6 +152,7 @@ LessN(a, b) ==
   ELSE CASE a.k = "null" -> FALSE
          [] IsNum(a) -> NumCmp(a, b) < 0                  \* numeric, ints and decimals together
          [] a.k = "bool" -> a.n[1] < b.n[1]               \* FALSE before TRUE
+         [] a.k = "ref" -> a.n[1] < b.n[1]
          [] a.k = "str" -> SeqLess(a.s, b.s)              \* code points, prefix first
          [] a.k = "date" -> SeqLess(a.s, b.s)             \* chronological (fixed width stamp)
          [] a.k = "pat" -> SeqLess(a.s, b.s)
@@ -282,6 +286,7 @@ RenderN(v) ==
     [] v.k = "str" -> Quote(v.s)
     [] v.k = "date" -> v.s
     [] v.k = "pat" -> <<47, 47>> \o v.s \o <<47, 47>>
+    [] v.k = "ref" -> <<60, 35>> \o NatDigits(v.n[1]) \o <<62>>    \* not a data value
     [] v.k = "list" ->
          <<91>> \o Join([i \in 1..Len(v.items) |-> RenderN(v.items[i])], TxtSep) \o <<93>>
     [] v.k = "set" ->
@@ -308,6 +313,7 @@ TokensN(v) ==
     [] v.k = "str" -> <<Tok("string", v.s)>>            \* payload: the string itself
     [] v.k = "date" -> <<Tok("int", v.s)>>
     [] v.k = "pat" -> <<Tok("pattern", <<47, 47>> \o v.s \o <<47, 47>>)>>
+    [] v.k = "ref" -> <<Tok("ref", NatDigits(v.n[1]))>>
     [] v.k = "list" ->
          <<Tok("interpunction", <<91>>)>>
          \o JoinT([i \in 1..Len(v.items) |-> TokensN(v.items[i])], <<TComma>>)
@@ -370,7 +376,8 @@ RECURSIVE WF(_)
 WF(v) ==
   /\ v.k \in Kinds
   /\ Len(v.n) = 2
-  /\ v.k \notin {"int", "dec", "bool"} => v.n = NoN
+  /\ v.k \notin {"int", "dec", "bool", "ref"} => v.n = NoN
+  /\ v.k = "ref" => v.n[2] = 1 /\ v.n[1] >= 0
   /\ v.k = "bool" => v.n \in {<<0, 1>>, <<1, 1>>}
   /\ IsNum(v) =>
        \/ v.n[2] = 0 /\ v.n[1] \in {-1, 1} /\ Len(v.s) >= 3 /\ v.s[Len(v.s)] > 0
